@@ -110,6 +110,9 @@ AccessorsTotal == \A i \in 1..Len(prod) :
    /\ IsTime(prod[i]) => (StartOf(prod[i]) # ERR /\ EndOf(prod[i]) # ERR /\ (hasDate(prod[i]) => DtOf(prod[i]) # ERR))
    /\ IsInterval(prod[i]) => \A e \in {prod[i].f, prod[i].t} : e # NONE => (StartOf(e) # ERR /\ EndOf(e) # ERR)
 
+\* latent anchoring of whatever the search can stream keeps it well formed (C02)
+PostWF == \A i \in 1..Len(prod) : IsValue(prod[i]) => WellFormed(Postprocess(ts, prod[i]))
+
 Rank(v) == IF IsToken(v) THEN 2
            ELSE IF IsTime(v) /\ (isDOM(v) \/ isDOW(v) \/ isDOY(v) \/ isPOD(v)) THEN 1 ELSE 0
 RECURSIVE SumRank(_)
